@@ -10,7 +10,7 @@ CHECKS = {
         text='Deductive proof with CBMC code contracts (goto-instrument --dfcc) on the C text mechanically extracted from transpositionTable.hpp/.cpp on every run: '
              'setUsedSize (unbounded loop closed by a loop contract) establishes the index invariant for every size 512..2^44; getIndex is in range and bucket-aligned for every key; '
              'probe/insert are proved with the table object modelled as exactly the used prefix, so any access into a resident tablebase or outside the table fails the pointer check; '
-             'insert changes at most one slot and the changed slot decodes to one complete record for exactly the key; store/load xor encoding; torn-read lemma over all word mixes of two writers; '
+             'insert changes at most one slot and the changed slot decodes to one complete record for exactly the key, including its move (the stored move; the old move survives only when the old record has the same key and the new one carries no move); store/load xor encoding; torn-read lemma over all word mixes of two writers; '
              'setBusy re-stores the probed record unchanged in meaning (one slot, same score at the ply, type, depth, evaluation, busy set); '
              'field independence of all accessors; ply shift of mate scores exact for every ply pair; TB byte region disjoint from the used part.',
         note=TRUST + 'Not decided: real thread interleavings (word atomicity of std::atomic<U64> is assumed, schedules are not explored); clear()/reSize() allocation paths; updateTB size arithmetic is covered under C12.',
@@ -56,7 +56,7 @@ CHECKS['C12'] = dict(
 CHECKS['C20'] = dict(
     text='Partial. Deductive proof (CBMC contracts, dfcc) on the extracted text of bitSet.hpp (both instantiations used by the solver: BitSet<64,-16> and BitSet<192,0>, 17 operations each) against a set spec '
          '(ghost element + exact word-level facts), of CspSolver::makeEven/makeOdd/addMinVal/addMaxVal (stored domain is exactly the intersection), getBitVal (returns a member of the domain for every preference order; '
-         'minimum for SMALL, maximum for LARGE), the loop of solve() that attaches every constraint to both of its variables (loop contract), and the SOUNDNESS of the backtracking search solveRecursive: '
+         'minimum for SMALL, maximum for LARGE), addIneq/addEq (exactly one stored inequality per requested one, over the same variables and equivalent to the requested relation for arbitrary values; emplace_back is an assumed stub), the loop of solve() that attaches every constraint to both of its variables (loop contract), and the SOUNDNESS of the backtracking search solveRecursive: '
          'its consistency test accepts a value exactly when every attached constraint between assigned variables holds (fragment with loop contract and a ghost witness for every rejection), and when solveRecursive returns true '
          'every constraint is satisfied and every value lies in its domain (outer loop contract; the recursive call is replaced by the same contract).',
     note=TRUST + 'NOT decided: makeArcConsistent (ghost-solution invariant written and cut mechanically; base and exit obligations close, the inductive step did not within 15 min) and the completeness of solveRecursive (no solution missed); '
@@ -93,9 +93,9 @@ CHECKS['C13'] = dict(
 CHECKS['C18'] = dict(
     text='Deductive proof (CBMC contracts) on extracted real code: PolyglotBook::getMove is total for all 2^16 codes (squares on the board, promotion piece of the mover), getPGMove/getMove inverse incl. king-takes-rook castling, '
          'serialize/deSerialize byte layout, the binary search of Book::getBookEntries (fragment, loop contract: every index read is inside the file and the search terminates for any file contents), getWeight range, '
-         'and, as a BOUNDED stand-in (at most 4 book entries and 16 legal moves; reported separately in the evidence and not counted as proved), the selection part of Book::getBookMove (fragment): the result is the empty move or a stored move that was found in the legal move list; the "should never get here" assert is unreachable.',
+         'and, as a BOUNDED stand-in (at most 4 book entries and 16 legal moves; reported separately in the evidence and not counted as proved), the selection part of Book::getBookMove (fragment): the result is the empty move or a stored move that was found in the legal move list, namely the entry whose weight window [cum(i-1), cum(i)) contains the random draw (so every entry of positive weight can be returned and none of weight 0); the "should never get here" assert is unreachable.',
     note=TRUST + 'Assumed contracts: file read lambda, MoveGen legal list (C01), Random::nextInt in [0,n), ::sqrt non-negative with square <= x+1, getWeight deterministic (in the selection proof). Data bounds of the selection proof: 4 book entries, 16 legal moves. '
-         'Not decided: std::fstream behaviour, built-in book map, positive probability of every stored move.',
+         'Not decided: std::fstream behaviour, built-in book map, the distribution of Random::nextInt.',
     technique='CBMC function and loop contracts on extracted real code and fragments (dfcc), SAT back end', design='4.10')
 CHECKS['C07'] = dict(
     text='Partial: incremental first-layer state and feature-index symmetry only. Deductive proof (CBMC contracts) on the extracted text of nneval.cpp/.hpp: getIndex in range and invariant under colour swap and left-right mirroring; '
